@@ -288,7 +288,7 @@ RCP<const Basic> Parser::parse_numeric(const std::string &expr)
     char *lendptr;
     // if the expr is numeric, it's either a float or an integer
     errno = 0;
-    long l = std::strtol(startptr, &lendptr, 0);
+    long l = std::strtol(startptr, &lendptr, 10);
 
     // Number is a long;
     if (expr.find_first_of('.') == std::string::npos
